@@ -290,6 +290,7 @@ func (e *Engine) VerifyFunc(prop, key string) (rep *FuncReport, obls []*Obligati
 			panic(r)
 		}
 	}()
+	fc.loadAxioms()
 	fc.run()
 	for k := range fc.inlined {
 		rep.Inlined = append(rep.Inlined, shortPkg(k))
@@ -470,6 +471,26 @@ func (fc *FCtx) run() {
 		fc.Obls = append(fc.Obls, can)
 	}
 	_ = reqs
+}
+
+// loadAxioms adds the trusted axioms declared in contract files of the function's own module (and the
+// shared ones) to every obligation of this function. They are listed in the evidence.
+func (fc *FCtx) loadAxioms() {
+	mod := moduleOf(fc.FI.Pkg.PkgPath)
+	for _, ax := range fc.E.cs.Axioms {
+		if ax.Pkg != "" && moduleOf(ax.Pkg) != mod && ax.Pkg != fc.FI.Pkg.PkgPath {
+			continue
+		}
+		pkg := fc.E.pkgs[ax.Pkg]
+		if pkg == nil {
+			pkg = fc.FI.Pkg
+		}
+		st := &State{vars: map[types.Object]Val{}, ghost: map[string]Val{}}
+		env := &Env{fc: fc, st: st, old: st, pkg: pkg, names: map[string]Val{}, bound: map[string]Val{}}
+		fc.frames = []*frame{{fi: fc.FI}}
+		t := fc.specBool(ax.Expr, env)
+		fc.U.Axiom("contract-file axiom "+ax.Label+": "+ax.Src, t)
+	}
 }
 
 func (fc *FCtx) modifiesGhost(g string) bool {
